@@ -8,11 +8,11 @@ dst = "/verif/seeded/%s" % sid
 os.makedirs(dst, exist_ok=True)
 for f in ("patch.diff", "demo.py", "notes.md"):
     shutil.copy(os.path.join(src, f), os.path.join(dst, f))
-ver = open(os.path.join(src, "verify.log")).read()
+ver = open(os.path.join(src, "my_verify.log")).read()  # my own confirmation run (tools/seed_verify.sh)
 meta = {"property": prop, "breaks": open(os.path.join(src, "notes.md")).read()[:1500], "needs_to_manifest": needs,
         "what_i_ran": ["in a scratch worktree with the patch applied: full test suite (/venv/bin/python -m pytest -q -p no:cacheprovider --timeout=900) -> " +
                        next((l for l in ver.splitlines() if " passed" in l), "?"),
-                       "demo.py with the patch: exit 1; without the patch (git stash): exit 0",
+                       "; ".join(l for l in ver.splitlines() if l.startswith("demo W")),
                        "VERIF_REPO=<worktree with the patch> ./check %s --tier quick (same as applying the patch to /repo)" % prop],
         "caught_by": caught}
 json.dump(meta, open(os.path.join(dst, "meta.json"), "w"), indent=1)
